@@ -45,3 +45,15 @@ open MdIt.Inline.ES.C16Doc MdIt.Pipeline
 #print axioms top_agree_instance
 #print axioms overlimit_entry_disagrees
 #print axioms incoherent_lookahead_real_disagree
+
+-- section 7: the top frame (closes the former OPEN item)
+#check @reach_top_ifp
+#check @lookahead_real_agree_top
+#check @top_agree_codespan_instance
+#check @doc_lookahead_real_agree_top
+#check @doc_lookahead_real_agree_top_stock
+#print axioms reach_top_ifp
+#print axioms lookahead_real_agree_top
+#print axioms top_agree_codespan_instance
+#print axioms doc_lookahead_real_agree_top
+#print axioms doc_lookahead_real_agree_top_stock
